@@ -12,7 +12,7 @@ PLAN = {
                 gen_q=("continue,stop,cancel,single,empty,waves,storm,wait,cancelfeed", 60), gen_t=("continue,stop,cancel,single,empty,waves,storm,wait,cancelfeed", 1500)),
     "C07": dict(mc_q=[("seq", 3, 1, 2, True), ("gated", 3, 2, 2, True), ("conc", 2, 2, 2, False)],
                 mc_t=[("seq", 4, 1, 3, True), ("gated", 3, 2, 2, True), ("gated", 4, 3, 1, True), ("conc", 3, 2, 2, False)],
-                gen_q=("continue,waves,storm,wait,rebudget", 90), gen_t=("continue,waves,storm,wait,rebudget", 2600)),
+                gen_q=("continue,waves,storm,wait,rebudget,fbhold", 90), gen_t=("continue,waves,storm,wait,rebudget,fbhold", 2600)),
     "C08": dict(mc_q=[("gated", 3, 2, 1, True), ("conc", 2, 2, 2, False)],
                 mc_t=[("gated", 4, 3, 1, True), ("conc", 3, 2, 2, False), ("conc", 3, 3, 1, False)],
                 gen_q=("barrier,continue,rerun,backoff,storm", 60), gen_t=("barrier,continue,stop,rerun,backoff,storm", 1000)),
@@ -30,14 +30,14 @@ PLAN = {
     "C04": dict(mc_q=[("seq", 2, 1, 1, True)], mc_t=[("seq", 3, 1, 2, True), ("gated", 2, 2, 1, True)],
                 gen_q=("continue", 40), gen_t=("continue,stop", 800)),
     "C17": dict(mc_q=[("eres", 2, 2, 2, True), ("gatedcancel", 2, 2, 1, True)], mc_t=[("eres", 3, 2, 2, True), ("seq", 3, 1, 2, True), ("gatedcancel", 3, 2, 2, True)],
-                gen_q=("continue,stop,cancel", 60), gen_t=("continue,stop,cancel", 1500)),
+                gen_q=("continue,stop,cancel,storm", 60), gen_t=("continue,stop,cancel,storm", 1500)),
     "C18": dict(mc_q=[("seq", 2, 1, 1, True), ("empty", 0, 2, 1, True)], mc_t=[("seq", 3, 1, 2, True), ("empty", 0, 2, 1, True), ("gated", 2, 2, 1, True)],
                 gen_q=("empty,single,continue", 50), gen_t=("empty,single,continue,stop", 800)),
 }
 
 
 # clauses whose antecedent assumes that unobservable internal steps settled within the harness's pause
-TIMING_CLAUSES = {"strictGated", "noRetryAfterCancelledWait"}
+TIMING_CLAUSES = {"strictGated", "noRetryAfterCancelledWait", "noHoldUp"}
 
 
 def mc_cfg(fam, items, c, n, export):
